@@ -638,3 +638,128 @@ def run_family(fn, items, jobs=None):
         else:
             flat.append(r)
     return flat
+
+
+# --------------------------------------------------------------------------------------------
+# completeness of the normalizer table (C06): every Euclidean normalizer of the generic metric, on a translation grid,
+# is represented by an entry (or the identity) modulo the group and modulo the continuous translations
+
+_SAMPLE_METRIC = {
+    "triclinic": [[Fr(2), Fr(3, 10), Fr(1, 2)], [Fr(3, 10), Fr(3), Fr(7, 10)], [Fr(1, 2), Fr(7, 10), Fr(5)]],
+    "monoclinic": [[Fr(2), F0, Fr(7, 10)], [F0, Fr(3), F0], [Fr(7, 10), F0, Fr(5)]],
+    "orthorhombic": [[Fr(2), F0, F0], [F0, Fr(3), F0], [F0, F0, Fr(5)]],
+    "tetragonal": [[Fr(2), F0, F0], [F0, Fr(2), F0], [F0, F0, Fr(5)]],
+    "trigonal": [[Fr(2), Fr(-1), F0], [Fr(-1), Fr(2), F0], [F0, F0, Fr(5)]],
+    "hexagonal": [[Fr(2), Fr(-1), F0], [Fr(-1), Fr(2), F0], [F0, F0, Fr(5)]],
+    "cubic": [[Fr(2), F0, F0], [F0, Fr(2), F0], [F0, F0, Fr(2)]],
+}
+_holo_cache = {}
+GRID = 24
+
+
+def holohedry(cs):
+    """integer matrices (entries -1,0,1) that preserve a generic metric of the crystal system in the standard setting"""
+    import itertools
+    import numpy as np
+
+    if cs not in _holo_cache:
+        Gm = np.array([[float(v) for v in r] for r in _SAMPLE_METRIC[cs]])
+        out = []
+        for ent in itertools.product((-1, 0, 1), repeat=9):
+            W = np.array(ent, dtype=float).reshape(3, 3)
+            if abs(abs(np.linalg.det(W)) - 1) > 1e-9:
+                continue
+            if np.abs(W.T @ Gm @ W - Gm).max() < 1e-9:
+                out.append(np.array(ent, dtype=np.int64).reshape(3, 3))
+        _holo_cache[cs] = out
+    return _holo_cache[cs]
+
+
+def normalizer_complete_obligation(sg):
+    """nz.complete[sg]: let K be the set of maps x -> W x + w with W in the holohedry of the generic metric, w on the 1/24 grid,
+    that map the reference group (spglib Hall database) onto itself (and det W = +1 for Sohncke groups). Every element of K must lie in
+    E.G.F for the identity or a table entry E, where F are the translations along the directions fixed by the whole point group
+    (continuous part of the normalizer)."""
+    import numpy as np
+
+    t0 = time.time()
+    f = "matid/data/symmetry_data.py:CHIRALITY_PRESERVING_EUCLIDEAN_NORMALIZERS"
+    INFO, WY, NZ = load_tables()
+    G = ref_ops(sg)
+    cs = crystal_system_of(sg)
+    sohncke = is_sohncke(sg)
+    Rg = np.array([[[int(v) for v in r] for r in R] for R, t in G], dtype=np.int64)
+    tg = np.array([[int(v * GRID) for v in t] for R, t in G], dtype=np.int64)  # Hall database translations are multiples of 1/12
+    if any((v * GRID).denominator != 1 for R, t in G for v in t):
+        return _ob("nz.complete[%d]" % sg, False, f, "reference translations not on the 1/%d grid" % GRID, {"sg": sg}, kind="vc")
+    # directions fixed by every rotation (coordinate aligned in the standard settings)
+    fixed = [k for k in range(3) if all((Rg[i][:, k] == np.eye(3, dtype=np.int64)[:, k]).all() and (Rg[i][k, :] == np.eye(3, dtype=np.int64)[k, :]).all()
+                                        for i in range(len(G)))]
+    # is the fixed space exactly spanned by these axes?  rank(R - I stacked) must be 3 - len(fixed)
+    stack = [[Fr(int(v)) for v in row] for i in range(len(G)) for row in (Rg[i] - np.eye(3, dtype=np.int64))]
+    if rank(stack) != 3 - len(fixed):
+        return Ob(id="nz.complete[%d]" % sg, status="unknown", backend="exact-integer", func=f, detail="fixed space of the point group is not coordinate aligned", witness={"sg": sg})
+    free = [k for k in range(3) if k not in fixed]
+    rot_index = {}
+    for i in range(len(G)):
+        rot_index.setdefault(Rg[i].tobytes(), []).append(i)
+    # grid of translations (0 along the continuous directions)
+    axes = [np.arange(GRID) if k in free else np.array([0]) for k in range(3)]
+    Wg = np.stack(np.meshgrid(*axes, indexing="ij"), axis=-1).reshape(-1, 3).astype(np.int64)  # (M,3) in units of 1/GRID
+    entries = [(np.eye(3, dtype=np.int64), np.zeros(3, dtype=np.int64), "identity")]
+    for k, n in enumerate(NZ.get(sg, [])):
+        try:
+            T, A, t = nz_entry(n)
+            if any(v.denominator != 1 for row in A for v in row) or any((v * GRID).denominator != 1 for v in t):
+                continue  # not on the grid: cannot represent grid candidates exactly; other obligations look at it
+            entries.append((np.array([[int(v) for v in row] for row in A], dtype=np.int64), np.array([int(v * GRID) for v in t], dtype=np.int64), "#%d" % k))
+        except Exception:
+            continue
+    missing = []
+    ncand = 0
+    for W in holohedry(cs):
+        d = int(round(np.linalg.det(W)))
+        if sohncke and d != 1:
+            continue
+        Wi = np.rint(np.linalg.inv(W)).astype(np.int64)
+        ok = np.ones(len(Wg), dtype=bool)
+        feasible = True
+        for i in range(len(G)):
+            R2 = W @ Rg[i] @ Wi
+            js = rot_index.get(R2.tobytes())
+            if not js:
+                feasible = False
+                break
+            # W tg + w - R2 w  ==  t_j (mod 1) for one of the operations j with rotation R2
+            lhs = (W @ tg[i])[None, :] + Wg - Wg @ R2.T
+            hit = np.zeros(len(Wg), dtype=bool)
+            for j in js:
+                hit |= (((lhs - tg[j][None, :]) % GRID) == 0).all(axis=1)
+            ok &= hit
+            if not ok.any():
+                feasible = False
+                break
+        if not feasible:
+            continue
+        cand = Wg[ok]
+        ncand += len(cand)
+        # representation: exists entry (A,t), g: A^-1 W == R_g and A^-1 (w - t) - t_g in F + Z^3
+        rep_ok = np.zeros(len(cand), dtype=bool)
+        for A, t, name in entries:
+            Ai = np.rint(np.linalg.inv(A)).astype(np.int64)
+            js = rot_index.get((Ai @ W).tobytes())
+            if not js:
+                continue
+            delta = (cand - t[None, :]) @ Ai.T
+            for j in js:
+                dd = (delta - tg[j][None, :]) % GRID
+                rep_ok |= (dd[:, free] == 0).all(axis=1) if free else np.ones(len(cand), dtype=bool)
+        if not rep_ok.all():
+            w_bad = cand[~rep_ok][0]
+            missing.append(([[int(v) for v in r] for r in W], ["%d/%d" % (int(v), GRID) for v in w_bad], int((~rep_ok).sum())))
+    ok_all = not missing
+    det = "" if ok_all else "normalizer x -> W x + w with W=%s w=%s maps the group onto itself but is not in E.G.F for any table entry E (%d such maps on the grid, %d rotation parts)" % (
+        missing[0][0], missing[0][1], sum(m[2] for m in missing), len(missing))
+    o = _ob("nz.complete[%d]" % sg, ok_all, f, det, {"sg": sg, "missing": missing[:3]}, backend="exact-integer", t=time.time() - t0, kind="vc")
+    o.smt2 = "candidates on the grid: %d" % ncand
+    return o
